@@ -34,4 +34,4 @@ Extraction "model.ml"
   parse_file_with parse_file_model parsed_token_types
   olf_model wsettings_of wrap_phase1 wrap_phase2 mk_lviews line_contexts_new tokinfo_of
   format_chain format_trace to_fmt make_formatter_kinds cfg_in_range
-  lex_segments eof_lines_okb idem_hyp_checks idem_hypb fm_l4 crlf_link_okb crlf_seg_okb.
+  lex_segments eof_lines_okb idem_hyp_checks idem_hypb idem_hyp_checks_min idem_hypb_min idem_hyp_checks_kinds idem_hypb_kinds fm_l4 crlf_link_okb crlf_seg_okb.
